@@ -2,6 +2,7 @@ package props
 
 import (
 	"fmt"
+	"math"
 	"math/big"
 	"time"
 
@@ -259,6 +260,125 @@ func hardRoots(k int, thorough bool) []ref.Bits {
 	return out
 }
 
+// henselSqrt constructs square-root arguments whose root lies a prescribed tiny distance above or below a rounding
+// midpoint, by solving M^2 + t = 4*10^E * D for odd M (the midpoint numerator) with Hensel lifting modulo 2^(E+2) and
+// 5^E and the Chinese remainder theorem: the distance of sqrt(D*10^e0) from the midpoint M/2 ulp is t/(4M) ulp, so a
+// ladder of |t| gives distances from about 1e-20 to 1e-9 ulp on both sides. (No such construction exists for cube
+// roots: cubing is a bijection modulo 2^a 5^b, so the midpoint is determined by t and almost never in range.)
+func henselSqrt(nT int) []ref.Bits {
+	var out []ref.Bits
+	seen := map[ref.Bits]bool{}
+	for _, e0 := range []int{0, 1} {
+		E := 34 - e0 // 4*10^E*D = M^2 + t, with D*10^e0 having up to 34+e0 digits and the root 34 digits
+		p2 := new(big.Int).Lsh(big.NewInt(1), uint(E+2))
+		p5 := new(big.Int).Exp(big.NewInt(5), big.NewInt(int64(E)), nil)
+		mod := new(big.Int).Mul(p2, p5)
+		inv2 := new(big.Int).ModInverse(p2, p5) // for CRT
+		// ladder of t: geometric from 3e14 to 4e25, both signs
+		tv := new(big.Float).SetFloat64(3e14)
+		ratio := new(big.Float).SetFloat64(1.0)
+		if nT > 1 {
+			// (4e25/3e14)^(1/(nT-1))
+			f, _ := new(big.Float).SetFloat64(0).Float64()
+			_ = f
+		}
+		for i := 0; i < nT; i++ {
+			// t_i = 3e14 * 10^(11.1*i/(nT-1))
+			ex := 11.1 * float64(i) / float64(maxi(nT-1, 1))
+			tf := new(big.Float).Mul(tv, new(big.Float).SetFloat64(pow10f(ex)))
+			_ = ratio
+			t0, _ := tf.Int(nil)
+			for _, sgn := range []int64{1, -1} {
+				// find t near t0 with sgn*t ... such that -t is a square mod 8 (== 1) and mod 5 (in {1,4})
+				for bump := int64(0); bump < 200; bump++ {
+					t := new(big.Int).Add(t0, big.NewInt(bump))
+					t.Mul(t, big.NewInt(sgn))
+					a := new(big.Int).Neg(t) // need M^2 == a
+					a8 := new(big.Int).Mod(a, big.NewInt(8)).Int64()
+					a5 := new(big.Int).Mod(a, big.NewInt(5)).Int64()
+					if a8 != 1 || (a5 != 1 && a5 != 4) {
+						continue
+					}
+					// sqrt mod 2^(E+2)
+					x2 := big.NewInt(1)
+					for k := 3; k < E+2; k++ {
+						m := new(big.Int).Lsh(big.NewInt(1), uint(k+1))
+						sq := new(big.Int).Mul(x2, x2)
+						sq.Sub(sq, a).Mod(sq, m)
+						if sq.Sign() != 0 {
+							x2 = new(big.Int).Add(x2, new(big.Int).Lsh(big.NewInt(1), uint(k-1)))
+						}
+					}
+					// sqrt mod 5^E by Newton lifting
+					x5 := big.NewInt(1)
+					if a5 == 4 {
+						x5 = big.NewInt(2)
+					}
+					pk := big.NewInt(5)
+					for pk.Cmp(p5) < 0 {
+						pk = new(big.Int).Mul(pk, pk)
+						if pk.Cmp(p5) > 0 {
+							pk = p5
+						}
+						// x = x - (x^2 - a) / (2x) mod pk
+						num := new(big.Int).Mul(x5, x5)
+						num.Sub(num, a)
+						den := new(big.Int).ModInverse(new(big.Int).Lsh(x5, 1), pk)
+						num.Mul(num, den)
+						x5 = new(big.Int).Sub(x5, num)
+						x5.Mod(x5, pk)
+					}
+					okRoot := func(x, m *big.Int) bool {
+						z := new(big.Int).Mul(x, x)
+						z.Sub(z, a).Mod(z, m)
+						return z.Sign() == 0
+					}
+					if !okRoot(x2, p2) || !okRoot(x5, p5) {
+						break
+					}
+					half := new(big.Int).Rsh(p2, 1)
+					for _, r2 := range []*big.Int{x2, new(big.Int).Sub(p2, x2), new(big.Int).Mod(new(big.Int).Add(x2, half), p2), new(big.Int).Mod(new(big.Int).Sub(new(big.Int).Add(p2, half), x2), p2)} {
+						for _, r5 := range []*big.Int{x5, new(big.Int).Sub(p5, x5)} {
+							// CRT: M = r2 + p2 * ((r5 - r2) * inv2 mod p5)
+							k := new(big.Int).Sub(r5, r2)
+							k.Mul(k, inv2).Mod(k, p5)
+							M := new(big.Int).Add(r2, new(big.Int).Mul(p2, k))
+							M.Mod(M, mod)
+							if M.Bit(0) == 0 {
+								continue
+							}
+							// D = (M^2 + t) / (4*10^E)
+							D := new(big.Int).Mul(M, M)
+							D.Add(D, t)
+							var rem big.Int
+							D.QuoRem(D, new(big.Int).Mul(big.NewInt(4), ref.Pow10(E)), &rem)
+							if rem.Sign() != 0 || D.Sign() <= 0 || D.Cmp(ref.Cmax) > 0 {
+								continue
+							}
+							// the root must have 34 or 35 digits at that scale: R = (M-1)/2 in [10^33, Cmax]
+							R := new(big.Int).Rsh(M, 1)
+							if R.Cmp(ref.Pow10(33)) < 0 || R.Cmp(ref.Cmax) > 0 {
+								continue
+							}
+							for _, sh := range []int{0, 2, -40, 400} {
+								b := MkBits(false, D, e0+sh)
+								if !seen[b] {
+									seen[b] = true
+									out = append(out, b)
+								}
+							}
+						}
+					}
+					break
+				}
+			}
+		}
+	}
+	return out
+}
+
+func pow10f(x float64) float64 { return math.Pow(10, x) }
+
 func init() {
 	for _, k := range []int{2, 3} {
 		k := k
@@ -415,6 +535,16 @@ func C17(r *eng.Run) {
 
 	// roots within 1e-19..1e-7 ulp of a rounding midpoint (where an iteration that stops slightly early shows)
 	t0 = time.Now()
+	nT := 600
+	if r.Thorough() {
+		nT = 6000
+	}
+	hs := henselSqrt(nT)
+	r.Bounds["hensel_sqrt_arguments"] = len(hs)
+	r.Par(len(hs), func(w *eng.W, i int) {
+		checkRoot(w, hs[i], 2)
+		w.Cell("Sqrt/near-midpoint-hensel", true)
+	})
 	h2, h3 := hardRoots(2, r.Thorough()), hardRoots(3, r.Thorough())
 	r.Bounds["near_midpoint_sqrt_arguments"] = len(h2)
 	r.Bounds["near_midpoint_cbrt_arguments"] = len(h3)
@@ -439,5 +569,5 @@ func C17(r *eng.Run) {
 		}
 	})
 	r.Phase("near-midpoint roots", t0, nil)
-	r.Require("Sqrt/perfect-power", "Cbrt/perfect-power", "Sqrt/exp-mod2=0", "Sqrt/exp-mod2=1", "Cbrt/exp-mod3=0", "Cbrt/exp-mod3=1", "Cbrt/exp-mod3=2", "Sqrt/negative", "Sqrt/zero", "Cbrt/inf", "Sqrt/near-midpoint", "Cbrt/near-midpoint")
+	r.Require("Sqrt/perfect-power", "Cbrt/perfect-power", "Sqrt/exp-mod2=0", "Sqrt/exp-mod2=1", "Cbrt/exp-mod3=0", "Cbrt/exp-mod3=1", "Cbrt/exp-mod3=2", "Sqrt/negative", "Sqrt/zero", "Cbrt/inf", "Sqrt/near-midpoint", "Cbrt/near-midpoint", "Sqrt/near-midpoint-hensel")
 }
